@@ -406,10 +406,12 @@ def c13(run):
     return generic_check(run, [("MC_map_w2churn.cfg", "MC_map.tla", {"timeout": 300})], [],
         [("churn", ["map:kv16:zero:26:2500:churn", "map:kv16:collide:40:1500:churn"]),
          ("churn2", ["map:k4v4:max:24:2500:churn", "map:kv16:mixed:12:1000:churn"]),
-         ("churn3", ["map:kv16:onegroup:30:2500:churn", "map:kv16:zero:10:1000:churn"])],
+         ("churn3", ["map:kv16:onegroup:30:2500:churn", "map:kv16:zero:10:1000:churn"]),
+         {"name": "churngoals_w16", "backend": "sse2", "args": ["replay", "--seed", "@SEED@", "corpus/map_w16_churn.ndjson"]}],
         [("churn4", ["map:kv16:zero:26:20000:churn"], {"tlc_timeout": 1800}),
          ("churn5", ["map:kv24:collide:40:20000:churn"], {"tlc_timeout": 1800}),
-         ("churng", ["map:kv16:zero:14:10000:churn"], {"backend": "generic", "tlc_timeout": 1800})],
+         ("churng", ["map:kv16:zero:14:10000:churn"], {"backend": "generic", "tlc_timeout": 1800}),
+         {"name": "churngoals_w8", "backend": "generic", "args": ["replay", "--seed", "@SEED@", "corpus/map_w8_churn.ndjson"]}],
         "model: insert/remove interleavings with bounded live size and unbounded buckets terminate with buckets <= bound; code: long churns, allocation_size bounded at every step", corpus=True)
 
 
